@@ -33,8 +33,10 @@ pub static PROP: PropDef = PropDef {
 pub fn profile(tier: Tier) -> Profile {
     let mut p = Profile::standard();
     p.alpha_chance = 0;
+    p.huge_max = 300_007;
     if tier == Tier::Thorough {
         p.long_max = 8192;
+        p.huge_max = 524_288;
     }
     p
 }
